@@ -70,3 +70,9 @@ def activated(expression, interventions, domain):
     if isinstance(expression, Product):
         return Product.safe(activate_domain_and_interventions(e, interventions, domain) for e in expression.expressions)
     raise NotImplementedError
+
+
+def intervened_term(self, variables):
+    # a probability term under do(variables): the WHOLE distribution -- outcome variables and conditioning set alike -- moves into that world,
+    # rebuilt as the same kind of term (same population)
+    return self._new(self.distribution.intervene(variables))
